@@ -24,10 +24,10 @@ def veq(a, b):
     return False
 
 
-def read_outcome(fa, data, wschema, rschema=None):
+def read_outcome(fa, data, wschema, rschema=None, **kw):
     fo = io.BytesIO(data)
     try:
-        v = fa.schemaless_reader(fo, wschema, rschema) if rschema is not None else fa.schemaless_reader(fo, wschema)
+        v = fa.schemaless_reader(fo, wschema, rschema, **kw) if rschema is not None else fa.schemaless_reader(fo, wschema, **kw)
     except Exception as e:  # noqa: BLE001
         return ("raise", type(e).__name__, None)
     return ("value", v, fo.tell())
@@ -174,6 +174,9 @@ def run(ctx, fa, own):
             bad_off = None
             for k in offs:
                 kind, v, pos = read_outcome(fa, data[:k], raw)
+                if kind == "raise" and k % 3 == 0:
+                    # a lenient text option makes undecodable text acceptable, not missing bytes
+                    kind, v, pos = read_outcome(fa, data[:k], raw, handle_unicode_errors="replace")
                 if kind != "raise":
                     bad_off = k
                     break
